@@ -123,6 +123,7 @@ namespace vf {
         bool nontrivial = false;
         std::map<std::string, long long> counters;    // classification counters (summed over cases)
         std::vector<std::string> tags;                 // classification tags (histogram of cases)
+        std::string aux;                               // engine data for the driver (E-vt: the branching record of the schedule)
 
         static Outcome fail(std::string o, std::string m)
         {
@@ -146,6 +147,7 @@ namespace vf {
             }
             for (auto& kv : counters) os << "c " << kv.first << " " << kv.second << "\n";
             for (auto& t : tags) os << "t " << t << "\n";
+            if (!aux.empty()) os << "x " << aux << "\n";
             os << "end\n";
             return os.str();
         }
@@ -169,17 +171,32 @@ namespace vf {
                     r.counters[v.substr(0, sp2)] = std::atoll(v.substr(sp2 + 1).c_str());
                 }
                 else if (k == "t") r.tags.push_back(v);
+                else if (k == "x") r.aux = v;
             }
             return ended;
         }
     };
 
     // ---------------------------------------------------------------------------------------------
+    // Systematic schedule enumeration (E-vt targets): when `forced_mode()` is set the virtual-thread scheduler
+    // takes its i-th decision from forced_schedule()[i] (index into the eligible list; 0 beyond the end) instead
+    // of from the case tape, and leaves the (eligible count, pick) record of all decisions in case_aux().
+    inline bool& forced_mode() { static bool b = false; return b; }
+    inline std::vector<int>& forced_schedule() { static std::vector<int> v; return v; }
+    inline std::string& case_aux() { static std::string s; return s; }
+    // forced mode only: at most this many preemptions (switching away from a thread that could continue) per schedule; -1 = unbounded
+    inline int& preemption_bound() { static int b = -1; return b; }
+    // how the virtual-thread scheduler reads the schedule part of the tape: 0 = uniform choice among the eligible threads at
+    // every decision; 1 = PCT (Burckhardt et al.): random thread priorities, d-1 priority change points, always run the
+    // highest-priority eligible thread (long uninterrupted runs + few, well placed preemptions)
+    inline int& vt_mode() { static int m = 0; return m; }
+
     struct Target
     {
         char const* property = "";
         char const* engine = "";
         bool forked = false;             // run each case in a fresh child process
+        bool enumerable = false;         // E-vt: supports systematic schedule enumeration (--exhaustive-out)
         int child_timeout_s = 60;        // watchdog for a forked case: hit => INCONCLUSIVE, never FAIL
         int tape_scale = 4;              // tape length ~ rapidcheck size * tape_scale
         int shrink_retries = 4;          // forked: a shrink candidate "fails" if any of N runs fails
@@ -287,6 +304,7 @@ namespace vf {
             {
                 o = Outcome::fail("harness_exception", "uncaught unknown exception in case runner");
             }
+            if (o.aux.empty()) o.aux = case_aux();
             std::string s = o.serialize();
             std::size_t off = 0;
             while (off < s.size())
@@ -459,12 +477,135 @@ namespace vf {
             os << "{\"property\": " << jstr(T.property) << ", \"engine\": " << jstr(T.engine)
                << ", \"oracle\": " << jstr(fout.oracle) << ", \"message\": " << jstr(fout.msg)
                << ", \"signature\": " << (T.signature ? T.signature(ftape, fout) : std::string("{\"oracle\": ") + jstr(fout.oracle) + "}")
-               << ", \"case\": " << T.describe(ftape) << ", \"tape\": " << tape_json(ftape) << "}";
+               << ", \"case\": " << T.describe(ftape) << ", \"tape\": " << tape_json(ftape);
+            if (vt_mode() != 0) os << ", \"vt_mode\": " << vt_mode();
+            if (forced_mode())
+            {
+                os << ", \"preemption_bound\": " << preemption_bound() << ", \"forced_schedule\": [";
+                for (std::size_t i = 0; i < forced_schedule().size(); ++i) os << (i ? "," : "") << forced_schedule()[i];
+                os << "]";
+            }
+            os << "}";
         }
         else os << "null";
         os << "\n}\n";
         std::ofstream f(path);
         f << os.str();
+    }
+
+
+    // ---------------------------------------------------------------------------------------------
+    // Small-scope systematic mode (E-vt targets):  prog --exhaustive-out FILE --budget S [--max-schedules N] [--depth D]
+    // rapidcheck generates small cases (RC_PARAMS max_size); for every distinct case ALL schedules are enumerated
+    // depth-first (stateless: the case is re-run in a fresh child with the decision prefix forced, index 0 after
+    // it; the child reports how many threads were eligible at every decision).  A case counts as completely
+    // enumerated if the tree was exhausted within N runs and no decision beyond depth D had more than one option.
+    inline std::vector<std::pair<int, int>> parse_branches(std::string const& aux)
+    {
+        std::vector<std::pair<int, int>> br;
+        std::istringstream is(aux);
+        std::string tok;
+        while (std::getline(is, tok, ','))
+        {
+            auto dot = tok.find('.');
+            if (dot == std::string::npos) continue;
+            br.emplace_back(std::atoi(tok.substr(0, dot).c_str()), std::atoi(tok.substr(dot + 1).c_str()));
+        }
+        return br;
+    }
+
+    inline int exhaustive_main(int argc, char** argv, Target const& T, std::string const& out)
+    {
+        double budget = std::atof(arg_of(argc, argv, "--budget", "1e9").c_str());
+        long long seed = std::atoll(arg_of(argc, argv, "--seed", "0").c_str());
+        long long max_sched = std::atoll(arg_of(argc, argv, "--max-schedules", "3000").c_str());
+        int depth = std::atoi(arg_of(argc, argv, "--depth", "40").c_str());
+        preemption_bound() = std::atoi(arg_of(argc, argv, "--preempt", "-1").c_str());
+        double t0 = now_s();
+        ShardStats st;
+        bool failed = false;
+        tape_t ftape;
+        Outcome fout;
+        std::vector<int> fsched;
+        long long cases = 0, complete = 0, dup = 0, truncated_depth = 0, truncated_count = 0, max_depth_seen = 0, max_per_case = 0;
+        forced_mode() = true;
+        auto gen = rc::gen::scale(static_cast<double>(T.tape_scale), rc::gen::container<tape_t>(rc::gen::arbitrary<std::uint32_t>()));
+        rc::check(std::string(T.property) + " / " + T.engine + " (schedule enumeration)", [&]() {
+            tape_t tape = *gen;
+            if (!failed && now_s() - t0 > budget) { ++st.skipped; return; }
+            if (failed && now_s() - t0 > budget + T.shrink_budget_s) return;    // shrinking phase: bounded as well
+            std::string d = T.describe(tape);
+            std::uint64_t ch = fnv(d);
+            if (!failed)
+            {
+                if (!st.all_hashes.insert(ch).second) { ++dup; return; }
+                ++cases;
+            }
+            std::vector<int> forced;
+            long long n = 0;
+            bool done = false, trunc_d = false, trunc_n = false, inconclusive = false;
+            while (!done)
+            {
+                if (n >= max_sched || now_s() - t0 > budget + (failed ? T.shrink_budget_s : 0.0)) { trunc_n = true; break; }
+                forced_schedule() = forced;
+                Outcome o = run_case(T, tape);
+                ++n;
+                ++st.evaluations;
+                auto br = parse_branches(o.aux);
+                std::string picks;
+                int real = 0;
+                for (auto const& b : br) { picks += std::to_string(b.second) + ","; if (b.first > 1) ++real; }
+                if (!failed)
+                {
+                    for (auto& kv : o.counters) st.counters[kv.first] += kv.second;
+                    if (n == 1) for (auto& t : o.tags) ++st.tags[t];
+                    if (real > 0) st.nt_hashes.insert(fnv(d + "|" + picks));
+                }
+                if (o.kind == Outcome::FAIL)
+                {
+                    if (failed && o.oracle != fout.oracle) { /* shrinking: follow the same oracle only */ }
+                    else
+                    {
+                        ++st.fails_seen;
+                        failed = true;
+                        ftape = tape;
+                        fout = o;
+                        fsched.clear();
+                        for (auto const& b : br) fsched.push_back(b.second);
+                        RC_FAIL(o.oracle + ": " + o.msg);
+                    }
+                }
+                if (o.kind == Outcome::INCONCLUSIVE) { inconclusive = true; break; }
+                max_depth_seen = std::max<long long>(max_depth_seen, static_cast<long long>(br.size()));
+                for (std::size_t i = static_cast<std::size_t>(depth); i < br.size(); ++i) if (br[i].first > 1) trunc_d = true;
+                int i = static_cast<int>(std::min<std::size_t>(br.size(), static_cast<std::size_t>(depth))) - 1;
+                while (i >= 0 && br[static_cast<std::size_t>(i)].second + 1 >= br[static_cast<std::size_t>(i)].first) --i;
+                if (i < 0) { done = true; break; }
+                forced.clear();
+                for (int k = 0; k < i; ++k) forced.push_back(br[static_cast<std::size_t>(k)].second);
+                forced.push_back(br[static_cast<std::size_t>(i)].second + 1);
+            }
+            if (failed) return;
+            max_per_case = std::max(max_per_case, n);
+            if (inconclusive) { ++st.inconclusive; if (st.inconclusive_notes.size() < 5) st.inconclusive_notes.push_back("enumeration: inconclusive run, tape=" + tape_json(tape)); }
+            else if (done && !trunc_d) ++complete;
+            if (trunc_d) ++truncated_depth;
+            if (trunc_n) ++truncated_count;
+            if (st.samples.size() < 4 && d.size() < 20000)
+                st.samples.push_back("{\"enumerated_case\": " + d + ", \"schedules_run\": " + std::to_string(n) + ", \"complete\": " + ((done && !trunc_d && !inconclusive) ? "true" : "false") + "}");
+        });
+        st.counters["enum_preemption_bound"] = preemption_bound();
+        st.counters["enum_cases"] = cases;
+        st.counters["enum_cases_completely_enumerated"] = complete;
+        st.counters["enum_cases_truncated_by_depth_bound"] = truncated_depth;
+        st.counters["enum_cases_truncated_by_schedule_limit"] = truncated_count;
+        st.counters["enum_schedules_run"] = st.evaluations;
+        st.counters["enum_duplicate_cases_skipped"] = dup;
+        st.counters["enum_max_decisions_in_a_schedule"] = max_depth_seen;
+        st.counters["enum_max_schedules_of_one_case"] = max_per_case;
+        if (failed) forced_schedule() = fsched;
+        write_shard(out, T, st, failed, ftape, fout, now_s() - t0, seed);
+        return failed ? 1 : 0;
     }
 
     // ---------------------------------------------------------------------------------------------
@@ -474,6 +615,7 @@ namespace vf {
     //   prog --describe FILE
     inline int target_main(int argc, char** argv, Target const& T)
     {
+        if (char const* m = std::getenv("VERIF_VT_MODE")) vt_mode() = std::strcmp(m, "pct") == 0 ? 1 : 0;
         std::string replay = arg_of(argc, argv, "--replay");
         if (!replay.empty())
         {
@@ -481,6 +623,25 @@ namespace vf {
             std::stringstream ss;
             ss << f.rdbuf();
             tape_t t = parse_tape_from_json(ss.str());
+            {
+                std::string js = ss.str();
+                auto vm = js.find("\"vt_mode\":");
+                if (vm != std::string::npos) vt_mode() = std::atoi(js.c_str() + vm + 10);
+                // a failure found by schedule enumeration carries its schedule explicitly
+                auto p = js.find("\"forced_schedule\"");
+                if (p != std::string::npos)
+                {
+                    auto b = js.find('[', p), e = js.find(']', p);
+                    std::istringstream is(js.substr(b + 1, e - b - 1));
+                    std::string tok;
+                    forced_mode() = true;
+                    forced_schedule().clear();
+                    auto pb = js.find("\"preemption_bound\":");
+                    if (pb != std::string::npos) preemption_bound() = std::atoi(js.c_str() + pb + 19);
+                    while (std::getline(is, tok, ','))
+                        if (tok.find_first_of("0123456789") != std::string::npos) forced_schedule().push_back(std::atoi(tok.c_str()));
+                }
+            }
             int times = std::atoi(arg_of(argc, argv, "--times", T.forked ? "20" : "1").c_str());
             std::printf("case: %s\n", T.describe(t).c_str());
             std::fflush(stdout);
@@ -508,6 +669,9 @@ namespace vf {
             std::printf("REPLAY-PASS runs=%d inconclusive=%d\n", times, inc);
             return 0;
         }
+
+        std::string xout = arg_of(argc, argv, "--exhaustive-out");
+        if (!xout.empty()) return exhaustive_main(argc, argv, T, xout);
 
         std::string out = arg_of(argc, argv, "--shard-out");
         double budget = std::atof(arg_of(argc, argv, "--budget", "1e9").c_str());
